@@ -652,7 +652,9 @@ func (w *World) exec(q Query, rc *ReuseCtx) string {
 				out = append(out, hx([]byte(field))+":"+hx(term))
 			})
 			if err != nil {
-				return "err"
+				// keep visiting with the same reader: what do later calls on it say?
+				parts = append(parts, "err")
+				continue
 			}
 			parts = append(parts, strings.Join(out, " "))
 		}
